@@ -155,7 +155,8 @@ pub fn leaf_digits(levels: &[Level], counter: u64) -> Vec<u32> {
 /// Some(c+1) while leaves remain after this one, None when `counter` is the last leaf
 pub fn successor(levels: &[Level], counter: u64) -> Option<u64> {
     let total = total_leaves(levels);
-    if (counter as u128) + 1 >= total {
+    if (counter as u128) + 1 >= total || counter == u64::MAX {
+        // last leaf, or (sum(h) >= 64) the 64-bit counter itself is used up
         None
     } else {
         Some(counter + 1)
